@@ -3,7 +3,9 @@
 Complete sweep of every row of the three embedded mass tables and the density table, repeated in
 every configuration of a small configuration graph (public table as imported / after all lazy
 groups were loaded; private tables created before / after; other groups initialised on a private
-table first).  Each configuration path runs in its own forked interpreter."""
+table first; entries customised and the group reloaded with reload=True).  Each configuration path runs in its own
+forked interpreter.  The expected values are the pinned copy of the embedded tables (mc/ref/tables.py, second half):
+nothing is read from the source of the tree under test, so a row that is lost there is a violation, not a moved reference."""
 import math
 from ..common import Acc, load_pt, close, rotate, MachineryError
 from ..ref import tables as rt
@@ -25,17 +27,31 @@ META = dict(
           "symbol(), name(), isotope(), iteration over the table / over the element, attribute + index, add_isotope of "
           "an existing mass number, the parent of an ion, the special names D and T with their symbol / name / isotope "
           "look-ups, the names exported by the package) must serve the very object the row sweep judged (or at least an "
-          "object serving the same mass, uncertainty, abundance and density: reported under its own signature); "
+          "object serving the same mass, uncertainty, abundance and density: reported under its own signature).  "
+          "CUSTOMISE-THEN-RELOAD (events *_dirty / *_reload of mc/configs.py): the entries of a group are replaced by a "
+          "custom dataset - an element WITH a value in the table, elements the table lists as unknown (density None: At, "
+          "Og, Cf, the neutron; no standard atomic weight: Tc, Og), isotopes (mass, a composition row, an isotope outside "
+          "the composition table), by assignment, None and deletion - and the group is re-initialised with "
+          "<module>.init(table, reload=True): all initialised groups at once and each group alone, on a private table "
+          "and on the public table, followed by further events; the complete sweep of the reloaded table must again equal "
+          "the embedded tables (what is found only there carries ':after-customise-and-reload'); the elements the table "
+          "hands out must be those of the reference and every row of the density table must have its element; "
           "a cell is one (configuration, table, atom, quantity or route); all cells are distinct and non-trivial"),
-    bound=dict(quick="23 configuration paths (9 of the original graph, 14 with option events) x all rows x all routes "
+    bound=dict(quick="33 configuration paths (9 of the original graph, 14 with option events, 10 customise-then-reload: all "
+                     "groups at once on a mass+density table, on a table with every group, on the public table as imported and "
+                     "after all lazy groups; mass, density, neutron each alone on both) x all rows x all routes "
                      "(exhaustive over rows and routes)",
                thorough="all 23 orderings of the configuration events up to length 4, the fixed paths of the quick tier, "
-                        "and every option event inserted at every position of every ordering up to length 3 (333 paths) "
+                        "every option event inserted at every position of every ordering up to length 3, the pair (customise, "
+                        "reload) of the private and of the public table at every position of every ordering up to length 3 - "
+                        "adjacent and with the reload at the end - and each of the 8 groups alone (480 paths) "
                         "x all rows x all routes"),
-    assumptions=["the embedded table text is the source of truth (loader errors are detected, not data errors)",
+    assumptions=["the embedded tables are the data the tree under test carries: per table, the text of the tree is read by the independent text readers of mc/ref/tables.py and is the reference as long as it is readable and holds at least 90 % of the rows of the pinned copy mc/ref/pinned_tables.json (made once from /repo at commit 6ba067a: `VERIF_REPO=/repo /venv/bin/python -m mc.ref.tables --write-pinned`); where the text is unreadable (another layout, a table re-keyed or moved) the pinned copy is the reference - so a deliberate data update moves the reference, a change of layout neither stops the check nor takes rows away unnoticed; the run record says which copy was used",
                  "mass.init / density.init (table, reload=True), on a new table or again on an initialised one, and a "
                  "repeated init with the default arguments are legal ways to initialise a table: afterwards it serves the "
-                 "embedded tables (a reload after a customisation is not judged)",
+                 "embedded tables; so is a reload after a customisation ('going back to the stock values'): every element and "
+                 "isotope of the mass and density tables has a row there (a value or 'unknown'), so the reload restores all of "
+                 "them; a table that is customised and NOT reloaded is not judged",
                  "elements and nuclides are singletons of their table (core.py: 'elements are effectively singletons'): "
                  "every look-up serves the same object; an equal-valued other object is reported separately "
                  "(route-gives-other-object) from one with other values (route-serves-other-values)",
@@ -47,11 +63,13 @@ META = dict(
                  "required; mass, abundance and density of ions are not judged (the statement names elements and isotopes)"],
     level_text="complete over the finite domain (all 119 elements, all isotopes, all table rows) in each explored "
                "configuration; configurations are bounded (one or two private tables)",
-    level_note="independent readers in mc/ref/tables.py parse the same embedded text; value(unc), [nominal], "
-               "[low,high] notations re-implemented with decimal alignment",
+    level_note="pinned copy of the four tables (mc/ref/pinned_tables.json) made with the independent text readers in "
+               "mc/ref/tables.py; value(unc), [nominal], [low,high] notations re-implemented with decimal alignment; nothing "
+               "is read from the source of the tree under test at run time",
 )
 
-from ..configs import LAZY, EVENTS, QUICK_PATHS, all_paths, apply_event, judged_tables, atom_routes, snippet as _snippet
+from ..configs import (LAZY, EVENTS, QUICK_PATHS, all_paths, apply_event, judged_tables, atom_routes, restored_labels,
+                       RELOADED, fold_reloaded, snippet as _snippet)
 
 
 class Ref(object):
@@ -130,8 +148,9 @@ def sweep(pt, T, label, path, ref, acc):
     """All rows against table T.  Returns number of cells checked."""
     from periodictable import constants
     cells = 0
+    after = RELOADED if label in restored_labels(path) else ""
     def bad(rule, key, expected, observed, code):
-        acc.violation("%s:%s" % (rule, "public" if label == "public" else "private"),
+        acc.violation("%s:%s%s" % (rule, "public" if label == "public" else "private", after),
                       dict(path=list(path), table=label, key=key, rule=rule),
                       expected=expected, observed=observed,
                       standalone=_snippet(path, label, code))
@@ -141,6 +160,14 @@ def sweep(pt, T, label, path, ref, acc):
         except Exception as e:
             bad(rule + "-raises", key, "a value", "%s: %s" % (type(e).__name__, e), code)
             return False, None
+    # --- the elements of the table are those of the reference (the loops below walk the table: an element that the
+    # table does not hand out would be passed by)
+    want_z = [0] + rt.all_element_numbers()
+    ok, got_z = get(lambda: sorted(el.number for el in T), "element-list", [], "print([el.number for el in T])")
+    cells += 1
+    if ok and got_z != want_z:
+        bad("element-list", [], "0..%d" % want_z[-1],
+            "missing %r, extra %r" % (sorted(set(want_z) - set(got_z)), sorted(set(got_z) - set(want_z))), "print([el.number for el in T])")
     # --- isotope set and masses
     by_z = {}
     for (Z, A) in ref.iso:
@@ -185,7 +212,7 @@ def sweep(pt, T, label, path, ref, acc):
         elif Z in ref.elm_fallback:
             m, u = ref.elm_fallback[Z]
         else:
-            continue
+            raise MachineryError("C06: no reference mass for element %d" % Z)
         code = "print(T[%d].mass, T[%d]._mass_unc)" % (Z, Z)
         ok, gm = get(lambda: (el.mass, el._mass_unc), "element-mass", [Z], code)
         cells += 2
@@ -278,10 +305,14 @@ def sweep(pt, T, label, path, ref, acc):
         # process): isotopes (n = rho_iso*N_A/m_iso = rho*N_A/m, the spacing of the natural form), ions of the
         # element and ions of every isotope
         cells += through_atoms(el, rho, constants.avogadro_number, bad)
-    # elements of the table without a density entry
+    # elements of the table without a row in the density table, rows of the density table without an element
     for el in T:
         if el.symbol not in ref.dens:
             bad("density-entry-missing-in-reader", [el.number], "entry", "none", "")
+    have = set(el.symbol for el in T)
+    for sym in sorted(ref.dens):
+        if sym not in have:
+            bad("density-row-without-element", [sym], "an element %s" % sym, "none", "print(T.%s)" % sym)
     return cells
 
 
@@ -307,8 +338,9 @@ def sweep_routes(pt, T, label, path, acc):
     another object, that object must at least serve the same mass, uncertainty, abundance and density."""
     cells = 0
     failed_primary = set()
+    after = RELOADED if label in restored_labels(path) else ""
     def bad(rule, route, key, expected, observed, code):
-        acc.violation("%s:%s:%s" % (rule, route.rstrip("*"), "public" if label == "public" else "private"),
+        acc.violation("%s:%s:%s%s" % (rule, route.rstrip("*"), "public" if label == "public" else "private", after),
                       dict(path=list(path), table=label, key=key, rule=rule, route=route),
                       expected=expected, observed=observed, standalone=_snippet(path, label, code))
     for route, key, expr, canon, thunk in atom_routes(pt, T, label):
@@ -362,6 +394,9 @@ def run_path(args):
         acc.outcome("table:" + label)
     acc.sample(dict(path=list(path), tables=[l for l, _ in live]))
     acc.count("configurations")
+    if path == ():
+        # for the run record only: which copy of each table the check judged by (the tree's own text, or the pinned copy where that is unreadable)
+        acc.notes += ["pinned reference tables: %s" % rt.pinned_origin()] + rt.reference_notes()
     return acc
 
 
@@ -369,6 +404,7 @@ def run(ctx):
     paths = QUICK_PATHS if ctx.quick else all_paths()
     jobs = list(enumerate(paths))
     ctx.pmap(run_path, rotate(jobs, ctx.seed))
+    fold_reloaded(ctx.acc)
     ctx.acc.traces = ctx.acc.evaluations
     ctx.acc.info["rows"] = dict(isotope_mass=len(rt.isotope_masses()), element_mass=len(rt.element_masses()),
                                 abundance_blocks=len(rt.isotope_abundances()), densities=len(rt.element_densities()))
